@@ -19,3 +19,7 @@ def build(repo, tier, seed):
     b = run.rt_call("C13", "selection_known_finding", {})
     r.bounded.append(b if "name" in b else {"name": "selection_known_finding", "error": b.get("error", b)})
     return r
+
+def fallback(repo, tier, seed):
+    b = run.rt_call("C13", "bounded_search", {"seed": seed})
+    return [b if "name" in b else {"name": "bounded_search", "error": b.get("error", b)}]
